@@ -524,7 +524,7 @@ def run(chk) -> None:
     check_tertiary_sites(chk)
     check_cli(chk)
     c01.check_stems(chk)
-    c01.check_regions(chk)
+    c01.check_regions(chk, with_fcfs=False)
 
 
 MANIFEST_ENTRY = {
